@@ -257,6 +257,12 @@ where
         };
 
         let mut entry = entry.write().await;
+        if let Some(any) = &*entry {
+            if !any.is::<T>() {
+                // Do not take (and thereby destroy) a value of another type.
+                return Err(HandleError::MismatchedType(format!("{:?}", (**any).type_id())));
+            }
+        }
         match entry.take() {
             Some(any) => match any.downcast::<T>() {
                 Ok(value) => Ok(*value),
@@ -414,7 +420,7 @@ where
         let TransportedHandle { id, dropped_tx, .. } = TransportedHandle::<T, Codec>::deserialize(deserializer)?;
 
         let handle_storage = PortDeserializer::storage()?;
-        let state = match handle_storage.remove(id) {
+        let state = match handle_storage.get(id) {
             Some(entry) => State::LocalReceived { entry, id, dropped_tx },
             None => State::Remote { id, dropped_tx },
         };
